@@ -155,6 +155,7 @@ def run(ctx, crate):
     # ---- R-DRAW-COMMIT-ON-SUCCESS (shared with C01) ----------------------------------------------
     rule_commit_on_success(ctx, crate)
     rule_io_no_retry(ctx, crate)
+    rule_screen_model_no_panic(ctx, crate)
     # "later calls on the same bar keep working": an I/O failure never ends the steady-tick thread
     from .c08 import rule_ticker_exit_conditions
     rule_ticker_exit_conditions(ctx, crate)
@@ -388,3 +389,164 @@ def rule_io_no_retry(ctx, crate, rule="R-IO-NO-RETRY"):
                       "%s is re-issued from its own error edge: with a persistently failing terminal the call never returns "
                       "(and holds the bar/multi locks forever)" % c.path, cfg)
     ctx.floor(rule, n, 3, cfg, "io::Result-valued calls inside loops")
+
+
+def rule_screen_model_no_panic(ctx, crate, rule="R-SCREEN-MODEL-NO-PANIC"):
+    """The record of what is on the screen (the row count handed to the paint routine, committed only after a successful
+    flush) lags behind the logical state by an arbitrary amount once a draw has failed. So no panic may depend on it: no
+    assertion / explicit panic whose controlling condition reads it, no unwrap/expect of a value derived from it, no
+    non-saturating subtraction of row counts involving it unless a comparison of the same operands dominates it.
+    "Derived" is a fixpoint: fields stored from a derived value and functions returning one are derived too."""
+    cfg = crate.config
+    bodies = [b for b in K.lib_bodies(crate)]
+    paint = crate.find(r"draw_target::DrawState::draw_to_term")
+    if not paint:
+        ctx.lost(rule, cfg, "paint routine draw_to_term not found")
+        return
+    # (1) the model fields: what callers pass as the row-count argument of the paint routine
+    M = set()
+    tparams = set()
+    for b in bodies:
+        for c in b.calls(r"draw_target::DrawState::draw_to_term"):
+            for k, a in enumerate(c.args):
+                l = operand_local(a)
+                if l is not None and "VisualLines" in b.locals[l]["ty"]:
+                    tparams.add((paint[0].name, k + 1))
+                    for f in b.slice_args(c, [k]).fields():
+                        if f[0] not in ("tuple",) and "VisualLines" in str(f[-1] if len(f) > 2 else "") or True:
+                            M.add((f[0], f[1]))
+    M = {(a, n) for a, n in M if n and a and a.startswith(("draw_target::", "multi::"))}
+    names = {n for a, n in M}
+    # same-named fields of the borrowed view (Drawable) alias the owner's
+    for adt, info in crate.adts.items() if hasattr(crate, "adts") else ():
+        pass
+    ctx.floor(rule, len(M), 1, cfg, "screen-model fields (row count passed to the paint routine)")
+
+    def tainted_slice(b, sl):
+        for c in sl.calls:
+            for t in [c.path] + crate.resolve_targets(c):
+                if t in TF:
+                    return "derives from %s()" % K.meth(t)
+        for f in sl.fields():
+            if (f[0], f[1]) in M or (f[1] in names and str(f[0]).startswith("draw_target::")):
+                return "reads %s.%s" % (f[0].rsplit("::", 1)[-1], f[1])
+        for p_ in sl.params():
+            if (b.name, p_) in tparams:
+                return "reads the row-count parameter"
+        return None
+
+    # (2) fixpoint over functions returning a derived value and fields stored from one
+    TF = set()
+    for _ in range(6):
+        changed = False
+        for b in bodies:
+            if b.name not in TF and b.kind != "Closure":
+                for d in b.defs().get(0, ()):
+                    if d["kind"] not in ("assign", "call"):
+                        continue
+                    sl = b.slice_args(d["call"]) if d["kind"] == "call" else b.slice_rv(d["bb"], {"lhs": d["lhs"], "rv": d["rv"]})
+                    own = d["kind"] == "call" and any(t in TF for t in [d["call"].path] + crate.resolve_targets(d["call"]))
+                    if "VisualLines" not in b.locals[0]["ty"] and b.locals[0]["ty"] not in ("usize",):
+                        continue
+                    if own or tainted_slice(b, sl):
+                        TF.add(b.name)
+                        changed = True
+                        break
+            for i, j, s_ in b.assigns():
+                fs = [x for x in s_["lhs"]["p"] if isinstance(x, dict) and "f" in x and x.get("adt")]
+                if not fs or (fs[-1]["adt"], fs[-1].get("n")) in M:
+                    continue
+                if "VisualLines" not in str(fs[-1].get("fty", "")):
+                    continue
+                if tainted_slice(b, b.slice_rv(i, s_)):
+                    M.add((fs[-1]["adt"], fs[-1].get("n")))
+                    names.add(fs[-1].get("n"))
+                    changed = True
+            for c in b.calls(r"<draw_target::VisualLines as std::ops::AddAssign>::add_assign", r"std::ops::AddAssign::add_assign"):
+                if len(c.args) == 2 and tainted_slice(b, b.slice_args(c, [1])):
+                    for f in b.slice_args(c, [0], through_calls=False).fields():
+                        if (f[0], f[1]) not in M and str(f[0]).startswith(("multi::", "draw_target::")):
+                            M.add((f[0], f[1]))
+                            names.add(f[1])
+                            changed = True
+        if not changed:
+            break
+    ctx.extra.setdefault("screen_model", {})[cfg] = {"fields": sorted("%s.%s" % x for x in M), "derived_fns": sorted(TF)}
+    # (3) the hazards
+    n = 0
+    for b in bodies:
+        if b.file in K.TEST_DOUBLE_FILES:
+            continue
+        R_ = b.reachable()
+        if not any(K.block_panics(b, bb) for bb in R_):
+            div = []
+        else:
+            rets = set(b.return_blocks())
+            # blocks from which no return can be reached: the failure arm of an assertion
+            doomed = {bb for bb in R_ if not (b.reach([bb]) & rets) and any(K.block_panics(b, x) for x in b.reach([bb]))}
+            div = [1]
+        for _D in div:
+            for sb, t in b.switches():
+                if sb in doomed:
+                    continue
+                tg = {tb for v, tb in t["targets"]} | {t["otherwise"]}
+                tg = {tb for tb in tg if not (b.term(tb) or {}).get("k") == "unreachable"}
+                ctl = [tb for tb in tg if tb in doomed]
+                if not ctl or len(ctl) == len(tg):
+                    continue
+                n += 1
+                why = tainted_slice(b, b.slice_switch(sb))
+                ctx.check(why is None, rule, "assert-on-screen-model", b.name, "%s:%d" % (b.file, t.get("line", 0)),
+                          "the condition guarding this panic does not read the on-screen row count",
+                          "a panic is guarded by a condition that %s: after a failed draw the on-screen row count is stale, so the "
+                          "assertion fires and poisons the locks held here" % why, cfg)
+        for c in b.calls(*K.UNWRAPS):
+            if io_err_targs(c):
+                continue
+            why = tainted_slice(b, b.slice_args(c, [0]))
+            n += 1
+            ctx.check(why is None, rule, "unwrap-on-screen-model", b.name, c.loc(), "the unwrapped value does not derive from the on-screen row count",
+                      "unwrap/expect of a value that %s (stale after a failed draw)" % why, cfg)
+        for c in b.calls(r"<draw_target::VisualLines as std::ops::Sub>::sub", r"std::ops::Sub::sub"):
+            if "VisualLines" not in b.locals[c.dest["l"]]["ty"] or len(c.args) != 2:
+                continue
+            why = tainted_slice(b, b.slice_args(c, [0])) or tainted_slice(b, b.slice_args(c, [1]))
+            if not why:
+                continue
+            n += 1
+            # a comparison of the same two operands must dominate the subtraction
+            a0, a1 = (src_key(b, c.args[0], c.bb), src_key(b, c.args[1], c.bb))
+            guarded = False
+            for k in b.calls(r"std::cmp::PartialOrd::(lt|le|gt|ge)", r"<draw_target::VisualLines as std::cmp::PartialOrd>::(lt|le|gt|ge)"):
+                if len(k.args) != 2:
+                    continue
+                ks = {src_key(b, k.args[0], k.bb), src_key(b, k.args[1], k.bb)}
+                if None in ks or ks != {a0, a1}:
+                    continue
+                for sb, t in b.switches():
+                    if operand_local(t["op"]) == k.dest["l"] or k.dest["l"] in b.slice_switch(sb, through_calls=False).locals:
+                        for tb in {tb for v, tb in t["targets"]} | {t["otherwise"]}:
+                            if b.edge_dominates((sb, tb), c.bb):
+                                guarded = True
+            ctx.check(guarded, rule, "row-subtraction-guarded", b.name, c.loc(), "the subtraction of row counts is dominated by a comparison of its operands",
+                      "non-saturating subtraction of row counts where an operand %s and no comparison of the two operands guards it" % why, cfg)
+    ctx.floor(rule, n, 10, cfg, "panic sites examined against the screen model")
+
+
+def src_key(b, op, at, depth=0):
+    """The place an operand denotes, through reborrows and copies: (local, projection-names) or None."""
+    import json
+    if not isinstance(op, dict) or op.get("k") == "const" or depth > 6:
+        return None
+    pl = op["place"]
+    names = [str(e.get("n", e.get("f"))) if isinstance(e, dict) else e for e in pl["p"]]
+    if [x for x in names if x != "*"] or 1 <= pl["l"] <= b.arg_count:
+        return (pl["l"], tuple(x for x in names if x != "*"))
+    ds = [d for d in b.defs().get(pl["l"], ()) if d["kind"] in ("assign", "call") and b.def_reaches(d, at)]
+    if len(ds) == 1 and ds[0]["kind"] == "assign" and not ds[0]["lhs"]["p"]:
+        rv = ds[0]["rv"]
+        if rv["k"] == "use":
+            return src_key(b, rv["op"], ds[0]["bb"], depth + 1)
+        if rv["k"] in ("ref", "copyderef"):
+            return src_key(b, {"k": "copy", "place": rv["place"]}, ds[0]["bb"], depth + 1)
+    return (pl["l"], ())
